@@ -1107,4 +1107,109 @@ example : decodeChunks [] [[0x61], [0xC0, 0x80]] = none ∧ decodeChunks [] [[0x
 example : Wire.streamEvents true Wire.noExt 10 none [0x88, 0x02, 0x03, 0xE8, 0x89, 0x00]
     = some [.close .frame 1000 (some [])] := by decide +kernel
 
+/-! ### round-6 cross-audit: the hypotheses of the theorems above hold together on concrete, non-initial values -/
+
+/-- a client text message "a|b" half received: `frame_buf = ["a", ""]` -/
+private def auditMid : St := (run 4000 (fun _ _ => .keep) {} [.data true [.msg true [0x61] true false]]).1
+
+-- each_message_once_in_order / delivered_equals_recorded: `crashed = false` and the UTF-8 hypothesis hold for a history
+-- with an injection between two fragments, an edit and a drop; and `crashed` is not constantly false
+example : (run 4000 (fun i _ => if i = 1 then .edit [0xC3, 0xA9] else if i = 2 then .drop else .keep) {}
+      [.data true [.msg true [0x61] true false], .inject true true [0x58], .data true [.msg true [0x62] true true],
+       .data false [.msg false [0xFF] true true, .ping [7]]]).1.crashed = false ∧
+    (∀ m ∈ (run 4000 (fun i _ => if i = 1 then .edit [0xC3, 0xA9] else if i = 2 then .drop else .keep) {}
+      [.data true [.msg true [0x61] true false], .inject true true [0x58], .data true [.msg true [0x62] true true],
+       .data false [.msg false [0xFF] true true, .ping [7]]]).1.msgs, m.text = true → san m.content = m.content) ∧
+    (run 4000 (fun _ _ => .keep) {} [.data true [.close .frame 1000 none, .msg false [1] true true]]).1.crashed = true := by
+  decide +kernel
+-- unmodified_keeps_boundaries: other side open, policy keeps, buffered fragments UTF-8 — on a half-received message
+example : auditMid.buf true = [[0x61], []] ∧ auditMid.ws false = .wopen ∧
+    (∀ f ∈ appendLast (auditMid.buf true) [0xC3, 0xA9], san f = f) ∧
+    (procMsg 4000 (fun _ _ => .keep) true false auditMid true [0xC3, 0xA9] true true).2 =
+      [.hookMsg 0, .sendMsg false true [([0x61], false), ([0xC3, 0xA9], true)]] := by decide +kernel
+-- injected_recorded_once: not done, not crashed, with a fragment buffered; the buffer survives the injection
+example : auditMid.done = false ∧ auditMid.crashed = false ∧
+    (step 4000 (fun _ _ => .keep) auditMid (.inject true false [1, 2, 3])).1.buf true = [[0x61], []] ∧
+    (step 4000 (fun _ _ => .keep) auditMid (.inject true false [1, 2, 3])).1.msgs.length = 1 := by decide +kernel
+-- pings_pongs_relayed: its hypotheses on the half-received state; and they can fail (after the server closed)
+example : auditMid.crashed = false ∧ auditMid.ws (!true) = .wopen ∧
+    (run 4000 (fun _ _ => .keep) {} [.data false [.close .frame 1001 (some [0x62])]]).1.ws false ≠ .wopen := by decide +kernel
+-- close_code_reason_recorded / close_recorded_in_history: a close behind a ping and a finished message, after traffic
+example : (run 4000 (fun _ _ => .keep) {} [.data true [.msg false [1] true true], .data false [.ping [9]]]).1.done = false ∧
+    (∀ e ∈ [Ev.data true [.msg false [1] true true], .data false [.ping [9]]], e.noClose = true) ∧
+    (run 4000 (fun _ _ => .keep) {} ([.data true [.msg false [1] true true], .data false [.ping [9]]] ++
+      [.data false ([.pong [3]] ++ [.close .frame 1001 (some [0x62, 0x79, 0x65])]), .data true [.ping [1]]])).1.closed
+      = some (false, 1001, some [0x62, 0x79, 0x65]) := by decide +kernel
+-- controls_relayed_in_order / no_crash_when_close_is_last: `noClose` resp. `closeLast` hold for real batches and fail for others
+example : (∀ e ∈ [Ev.data true [.ping [1], .msg true [0x61] true true], .inject false true [0x62], .data false [.pong [2]]], e.noClose = true) ∧
+    (∀ e ∈ [Ev.data true [.msg true [0x61] true true, .close .frame 1000 none], .data false [.ping [2]]], e.closeLast = true) ∧
+    (Ev.data true [.close .frame 1000 none, .ping [1]]).closeLast = false := by decide +kernel
+-- unmodified_message_keeps_frames / wire_message_end_to_end: wellFramed bursts exist beyond the single frame, buffer empty, peer open
+example : wellFramed [([1, 2], false), ([], false), ([3], true)] = true ∧ wellFramed [([1], true), ([2], true)] = false ∧
+    ({} : St).buf true = [[]] ∧ ({} : St).ws (!true) = .wopen := by decide +kernel
+-- wire_message_end_to_end instantiated: a binary client message in three masked frames, kept by the addons, re-serialised
+-- with other keys and read by the server as exactly one message with the recorded content
+example : (Wire.streamEvents (!true) Wire.noExt 9 none ((Wire.dataFrames false (fun i => some [1, 2, 3, UInt8.ofNat i]) 0 true
+        (fragmentize 4000 [2, 0, 1] false [1, 2, 3])).flatMap Wire.encodeFrame)).map (Wire.reassemble none) =
+      some [(false, [1, 2, 3])] :=
+  (wire_message_end_to_end 4000 (fun _ _ => .keep) {} true false [([1, 2], false), ([], false), ([3], true)]
+    (fun _ => some [9, 9, 9, 9]) (fun i => some [1, 2, 3, UInt8.ofNat i]) 9 9 (by decide) (fun _ => ⟨rfl, rfl⟩)
+    (by decide) (by decide) rfl rfl rfl rfl _ rfl rfl (fun _ => ⟨rfl, rfl⟩) (by decide +kernel) (by decide +kernel)).2.2.2
+-- text_message_cut_anywhere_recorded / unmodified_text_message_any_cuts: their decoder hypothesis with flags
+example : decodeChunks [] [[0x61, 0xC3], [0xA9, 0xE2], [0x82, 0xAC]] =
+      some (([([0x61], false), ([0xC3, 0xA9], false), ([0xE2, 0x82, 0xAC], true)] : List (Bytes × Bool)).map (·.1), []) ∧
+    wellFramed [([0x61], false), ([0xC3, 0xA9], false), ([0xE2, 0x82, 0xAC], true)] = true := by decide +kernel
+-- frame_roundtrip / stream_roundtrip: `Frame.wf` and `FramesOk` hold for a masked text frame followed by a ping
+example : Wire.FramesOk false Wire.noExt [⟨false, 0, 1, some [1, 2, 3, 4], [0x61]⟩, ⟨true, 0, 9, some [0, 0, 0, 0], []⟩] := by
+  intro f hf
+  simp only [List.mem_cons, List.mem_singleton, List.not_mem_nil, or_false] at hf
+  rcases hf with rfl | rfl <;> exact ⟨by unfold Wire.Frame.wf; decide, by decide⟩
+-- the gap named in notes/audit6/C28.md closes: the decoder the driver runs (`streamEventsU`) also yields a close only last
+example (client : Bool) (rsvOk : Nat → Nat → Bool) : ∀ (fuel : Nat) (ms : Wire.MState) (pend bs : Bytes) (evs : List WsEv),
+    Wire.streamEventsU client rsvOk fuel ms pend bs = some evs → closeLast evs = true := by
+  intro fuel
+  induction fuel with
+  | zero => intro ms pend bs evs h; simp [Wire.streamEventsU] at h; subst h; rfl
+  | succ n ih =>
+    intro ms pend bs evs h
+    simp only [Wire.streamEventsU] at h
+    split at h
+    · simp at h; subst h; rfl
+    · simp at h
+    · rename_i f rest _
+      split at h
+      · simp at h
+      · rename_i ms1 p1 e hfe
+        split at h
+        · simp at h; subst h; rfl
+        · rename_i h8
+          cases hr : Wire.streamEventsU client rsvOk n ms1 p1 rest with
+          | none => rw [hr] at h; simp at h
+          | some r =>
+            rw [hr] at h; simp at h; subst h
+            have hcl := ih ms1 p1 rest r hr
+            have he : e.isClose = false := by
+              unfold Wire.frameEventU at hfe
+              cases hfe0 : Wire.frameEvent ms f with
+              | none => rw [hfe0] at hfe; simp at hfe
+              | some r0 =>
+                obtain ⟨ms0, e0⟩ := r0
+                have h0 := frameEvent_close ms f ms0 e0 hfe0 h8
+                rw [hfe0] at hfe
+                cases e0 with
+                | msg t d ff mf =>
+                  cases t with
+                  | false => simp at hfe; obtain ⟨_, _, rfl⟩ := hfe; rfl
+                  | true =>
+                    simp only at hfe
+                    split at hfe
+                    · simp at hfe
+                    · simp at hfe; obtain ⟨_, _, rfl⟩ := hfe; rfl
+                | ping p => simp at hfe; obtain ⟨_, _, rfl⟩ := hfe; rfl
+                | pong p => simp at hfe; obtain ⟨_, _, rfl⟩ := hfe; rfl
+                | close k c r => simp [WsEv.isClose] at h0
+            cases r with
+            | nil => rfl
+            | cons a l => simp [closeLast, he, hcl]
+
 end MitmVerif.Props.C28
